@@ -457,6 +457,118 @@ func firstLine(s string) string {
 	return s
 }
 
+// rnode is a state of the replay-mode search: the history that reaches it on ONE uninterrupted
+// seat manager, its snapshot, and the identity facts a snapshot cannot show (whether the dealer /
+// blind pointers still are the live seat records).
+type rnode struct {
+	hist  []string
+	st    *St
+	ident string
+}
+
+func identity(m *sm.SeatManager) string {
+	var b strings.Builder
+	for _, p := range []*sm.Seat{m.Dealer(), m.SmallBlind(), m.BigBlind()} {
+		switch {
+		case p == nil:
+			b.WriteByte('-')
+		case m.GetSeat(p.ID) == p:
+			b.WriteByte('=')
+		default:
+			b.WriteByte('x') // an orphaned record: same id, no longer the seat the manager works on
+		}
+	}
+	return b.String()
+}
+
+func replayHist(n int, hist []string) *sm.SeatManager {
+	m := sm.NewSeatManager(n)
+	for _, l := range hist {
+		op, choices, err := parseStep(l)
+		if err != nil {
+			panic(err)
+		}
+		exec(m, op, vrt.NewChooser(choices))
+	}
+	return m
+}
+
+// RunReplay explores all operation sequences WITHOUT rebuilding states: every successor is
+// obtained by replaying the whole history on a fresh seat manager (pointer identities, replaced
+// records and any other in-memory-only effect are kept). Used for the small tables.
+func (c *Check) RunReplay() {
+	b := &explore.BFS[*rnode]{MaxStates: c.MaxState, KeyOf: func(r *rnode) explore.Key {
+		k := r.st.key()
+		return explore.HashKey(append(k[:], r.ident...))
+	}}
+	ops := Alphabet(c.N)
+	m0 := sm.NewSeatManager(c.N)
+	init := &rnode{st: Snap(m0, c.N), ident: identity(m0)}
+	var execs int64
+	report := func(hist []string, label, sig, msg, exp, obs string) {
+		h := append(append([]string{}, hist...), label)
+		if label == "" {
+			h = h[:len(h)-1]
+		}
+		if c.Rep.Skip(sig, len(h)) {
+			return
+		}
+		v := &explore.Violation{Property: c.Property, Engine: "seats", Signature: sig, Message: msg, Config: cfgOf(c.N), History: h, Expected: exp, Observed: obs}
+		v.Confirm = func() (bool, string) { return Replay(v) }
+		v.GoTestFn = func() string { return goTest(c.N, h) }
+		c.Rep.Violation(v)
+	}
+	b.Run([]*rnode{init}, func(nd explore.Node[*rnode], emit func(string, *rnode) (int32, bool)) {
+		pre := nd.State
+		if c.Property == "C18" {
+			c.availability(pre.st, func(sig, msg, exp, obs string) { report(pre.hist, "", sig, msg, exp, obs) })
+		}
+		for _, op := range ops {
+			one := func(ch *vrt.Chooser) {
+				m := replayHist(c.N, pre.hist)
+				if ch == nil {
+					ch = vrt.NewChooser(nil)
+				}
+				out := exec(m, op, ch)
+				label := stepLabel(op, ch.Choices())
+				post := Snap(m, c.N)
+				c.updateHeld(pre.st, op, out, post)
+				violated := false
+				c.oracle(pre.st, op, out, post, m, func(sig, msg, exp, obs string) {
+					violated = true
+					report(pre.hist, label, sig, msg, exp, obs)
+				})
+				if out.Panic != "" || violated {
+					return
+				}
+				emit(label, &rnode{hist: append(append([]string{}, pre.hist...), label), st: post, ident: identity(m)})
+			}
+			e := 1
+			if op.Kind == "Join" && op.K == -1 {
+				atomic.AddInt64(&c.joinAny, 1)
+				e, _ = explore.Deviations(c.DevBound, 0, one)
+			} else {
+				one(nil)
+			}
+			atomic.AddInt64(&execs, int64(e))
+		}
+	})
+	c.Rep.Add("states", b.States)
+	c.Rep.Add("transitions", b.Transitions)
+	c.Rep.Add("traces_validated_against_impl", execs)
+	c.Rep.Add("executions", execs)
+	c.Rep.Add("configurations", 1)
+	c.Rep.Max("max_depth", int64(b.MaxDepth))
+	c.Rep.Add("next_moves_checked", c.nextOK)
+	c.Rep.Add("next_refusals_checked", c.nextErr)
+	c.Rep.Add("late_joiner_scenarios", c.scenarios)
+	c.Rep.Add("join_any_states", c.joinAny)
+	c.Rep.Set(fmt.Sprintf("states_n%d_replay_mode", c.N), b.States)
+	if b.Capped != "" {
+		c.Rep.Cap(fmt.Sprintf("%s at %d seats in replay mode (states=%d, completed depth=%d)", b.Capped, c.N, b.States, b.MaxDepth))
+	}
+}
+
 // Run explores all operation sequences on a table of c.N seats.
 func (c *Check) Run() {
 	b := &explore.BFS[*St]{MaxStates: c.MaxState, KeyOf: func(s *St) explore.Key { return s.key() }}
